@@ -246,7 +246,7 @@ class Models:
         if isinstance(expr, (ast.Constant,)):
             return self.constant(expr.value, node)
         # evaluate simple constant expressions in module scope
-        if isinstance(expr, (ast.Call, ast.BinOp, ast.List, ast.Tuple, ast.Attribute)):
+        if isinstance(expr, (ast.Call, ast.BinOp, ast.List, ast.Tuple, ast.Attribute, ast.Dict, ast.Lambda)):
             from .interp import Frame
             self.I.frames.append(Frame(None, module, None, {}))
             try:
@@ -590,6 +590,33 @@ class Models:
                     obj.fields[attr] = v
                     return v
             I.raise_("AttributeError", node)
+        if isinstance(obj, DictV):
+            def dictcall(args, kwargs, n, d=obj, attr=attr):
+                self.st.effects.append(("dictcall", d, attr, args, self.where(n)))
+                if attr == "update":
+                    src = args[0] if args else None
+                    seq = self.iterate(src, n) if src is not None else []
+                    if seq is None:
+                        d.opaque_updates = getattr(d, "opaque_updates", []) + [src]
+                        return NONE
+                    for it in seq:
+                        if isinstance(it, TupleV) and len(it.items) == 2:
+                            d.items.append((it.items[0], it.items[1]))
+                        else:
+                            self.I.unsupported(n, "dict.update item")
+                    return NONE
+                if attr in ("keys", "values", "items"):
+                    return ListV([TupleV([k, v]) if attr == "items" else (k if attr == "keys" else v)
+                                  for k, v in d.items])
+                if attr == "get":
+                    try:
+                        return self.dict_get(d, args[0], n)
+                    except AbsRaise:
+                        return args[1] if len(args) > 1 else NONE
+                if attr in ("pop", "clear", "setdefault", "popitem"):
+                    return OpaqueV(f"dict.{attr}")
+                self.I.unsupported(n, f"dict method {attr}")
+            return NativeV(dictcall, f"dict.{attr}")
         if isinstance(obj, GlobalMapV):
             def mapcall(args, kwargs, n, g=obj, attr=attr):
                 self.st.effects.append(("mapcall", g, attr, args, self.where(n)))
@@ -821,6 +848,50 @@ class Models:
         if isinstance(obj, DictV):
             return self.dict_get(obj, key, node)
         I.unsupported(node, f"subscript of {obj!r}")
+
+    def dict_get(self, d, key, node):
+        if getattr(d, "rate_table", None) is not None:
+            return self.rate_table_get(d, key, node)
+        for k, v in reversed(d.items):
+            if self.keys_equal(k, key, node):
+                return v
+        self.I.raise_("KeyError", node)
+
+    def keys_equal(self, a, b, node) -> bool:
+        if isinstance(a, TypeV) and isinstance(b, TypeV):
+            return a.name == b.name
+        if isinstance(a, TupleV) and isinstance(b, TupleV):
+            return len(a.items) == len(b.items) and all(self.keys_equal(x, y, node) for x, y in zip(a.items, b.items))
+        if isinstance(a, UnitV) and isinstance(b, UnitV):
+            return self.decide_same_unit(a.uid, b.uid, node)
+        if isinstance(a, StrV) and isinstance(b, StrV) and a.const is not None and b.const is not None:
+            return a.const == b.const
+        if isinstance(a, NoneV) or isinstance(b, NoneV):
+            return isinstance(a, NoneV) and isinstance(b, NoneV)
+        if type(a) is not type(b):
+            return False
+        return a is b
+
+    def rate_table_get(self, d, key, node):
+        """MoneyConverter._rate_dict: (validity, term currency) -> rate from the base currency (writer: update)."""
+        I = self.I
+        self.st.effects.append(("ratetable-read", d, key, self.where(node)))
+        if not (isinstance(key, TupleV) and len(key.items) == 2):
+            I.raise_("KeyError", node)
+        cur = key.items[1]
+        if not isinstance(cur, UnitV):
+            I.raise_("KeyError", node)     # entries are keyed by Currency objects
+        uid = self.st.ufind(cur.uid)
+        memo = d.rate_table
+        if uid not in memo:
+            memo[uid] = bool(I.choose(2, f"rate_dict[{uid}]", ["KeyError", "entry"]))
+        if not memo[uid]:
+            I.raise_("KeyError", node)
+        base = d.base_currency
+        if self.st.same_unit(base.uid, cur.uid) is True:
+            I.raise_("KeyError", node)     # a rate base->base cannot be stored (constructor rejects it)
+        return RateV(base, cur, Num(RF.atom(("um", "tbl:" + uid)), "dec"), Num(RF.atom(("ta", "tbl:" + uid)), "dec"),
+                     name="tbl:" + uid)
 
     def get_slice(self, obj, lo, hi, node):
         if isinstance(obj, TupleV):
